@@ -496,7 +496,7 @@ def main():
         add("R19.d", "rm-before-ln", "bin/newpolicy.sh", "old link removed before the new one is created", rm[0].order < ln[0].order, "")
 
     # ---- R19.g: the new number is published before it is used
-    rule("R19.g", "In handle_success the POLICY file with the new number is written, committed and pushed (`echo ... > POLICY`, `git commit`, `git push`) before `mv next $POLICY` gives the directory its final name: a run killed between the rename and the link switch leaves the number recorded in the repository, so the next run (max of POLICY file and link, plus one) does not reuse it.")
+    rule("R19.g", "In handle_success the POLICY file with the new number is written, added to the index, committed and pushed (`echo ... > POLICY`, `git add POLICY`, `git commit`, `git push`) before `mv next $POLICY` gives the directory its final name: a run killed between the rename and the link switch leaves the number recorded in the repository, so the next run (max of POLICY file and link, plus one) does not reuse it.")
     wr = [c for c in hs if any(re.match(r"^>+POLICY$", w) or w == "POLICY" and k > 0 and c.words[k-1] in (">", ">>") for k, w in enumerate(c.words)) or c.text.rstrip().endswith("> POLICY")]
     commit = [c for c in hs if c.words[:2] == ["git", "commit"]]
     push = [c for c in hs if c.words[:2] == ["git", "push"]]
@@ -505,6 +505,21 @@ def main():
     okpub = bool(wr and commit and push and mv) and wr[0].order < commit[0].order < push[0].order < mv[0].order and not push[0].ctx and not commit[0].ctx
     add("R19.g", "published-before-rename", "bin/newpolicy.sh", "write POLICY < git commit < git push < mv next $POLICY", okpub,
         "the new policy number is not durable in the repository when the directory is renamed: after a kill at the link switch the number is reused (mv nests the new compile inside the old pN)")
+
+    # the file is in the commit: `git commit -a` takes only files git already tracks; in a repository
+    # that has no POLICY file yet the number would never be committed.  Accepted: `git add` naming
+    # POLICY (or everything: -A / --all / .) between the write and the commit, or a commit that
+    # names the path itself (`git commit ... POLICY`, which needs a tracked file only with -o/-i; with
+    # an explicit `git add` in front it is the same thing).
+    def adds_policy(c):
+        if c.words[:2] != ["git", "add"]:
+            return False
+        rest = c.words[2:]
+        return any(w in ("POLICY", "./POLICY", "-A", "--all", ".") for w in rest)
+    gadd = [c for c in hs if adds_policy(c)]
+    okadd = bool(wr and commit and gadd) and any(wr[0].order < a.order < commit[0].order and not a.ctx for a in gadd)
+    add("R19.g", "policy-file-added", "bin/newpolicy.sh", "`git add POLICY` between writing the file and `git commit`: %s" % [c.text for c in gadd], okadd,
+        "the POLICY file is not added to the index before the commit: in a repository without a tracked POLICY file (`git commit -a` skips untracked files) the number is never recorded, and after a lost link the numbering restarts")
 
     # ---- R19.f
     pn = [c for c in cmds if c.func == "prepare_next"]
